@@ -87,9 +87,11 @@ var styleRePool = []rePoolEntry{
 	{regexp.MustCompile(`(?i)^(left|right)$`), []string{"left", "right"}, []string{"center", ""}},
 	{regexp.MustCompile(`[0-9]+`), []string{"1", "a1b"}, []string{"", "abc"}},
 	{regexp.MustCompile(`^[a-z ]*$`), []string{"", "a b", "re d"}, []string{"A1", "a;b"}},
+	{regexp.MustCompile(`^red`), []string{"red", "red !important"}, []string{"", "blue"}}, // unanchored at the end
+	{regexp.MustCompile(`px`), []string{"1px", "px\\"}, []string{"", "em"}},
 }
 
-var styleEnumPool = [][]string{{"left", "right", "center"}, {"red", "re d", "BLUE"}, {"10px"}, {"none", "underline"}}
+var styleEnumPool = [][]string{{"left", "right", "center"}, {"red", "re d", "BLUE"}, {"10px"}, {"none", "underline"}, {"solid", "block", "Dashed"}}
 
 // pure callbacks ------------------------------------------------------------------------------
 
@@ -613,8 +615,9 @@ type styleRule struct {
 func (r styleRule) accepts(v string) bool {
 	switch r.kind {
 	case "enum":
+		// v is the lower-cased value; an enumeration lists values, it does not fold U+017F into s
 		for _, e := range r.enum {
-			if strings.EqualFold(e, v) {
+			if strings.ToLower(e) == strings.ToLower(v) {
 				return true
 			}
 		}
